@@ -29,12 +29,13 @@ Findings re-established here:
   full theorem for the repaired loop, which is what the tie agrees with now.
 * CP2K never reads a box from the program's output: `cp2k_frame_uses_own_box_partial` needs a constant box
   (documented NVT-only limitation of the engine).
-* OPEN (audit pass): LAMMPS and CP2K leave the MD program RUNNING when an exception leaves the polling loop's body
-  (order function raising on a frame, `OSError` of `write_xyz_trajectory`/`msg_file.write`, `KeyboardInterrupt` in
-  `sleep`): `body_exception_leaves_program_running_counterexample` (realistic length limit, confirmed on the real
-  engines with fake lmp / fake cp2k; tie signatures `C12:lammps|cp2k:program-left-running-after-exception`).
-  `program_stopped_unless_body_exception_partial` is what holds for the code as it is,
-  `guarded_program_stopped_on_every_exception` the full statement for the proposed repair (last section).
+* LAMMPS and CP2K left the MD program RUNNING when an exception left the polling loop's body (order function raising
+  on a frame, `OSError` of `write_xyz_trajectory`, `KeyboardInterrupt` in `sleep`): record
+  `body_exception_leaves_program_running_counterexample` (`Guard.asIs`, realistic length limit, CONFIRMED on the real
+  engines with fake lmp / fake cp2k; tie signatures `C12:lammps|cp2k:program-left-running-after-exception`).  Repaired in
+  /repo (`except BaseException: … killpg; wait; raise` around the loops = `Guard.guarded`, what the tie agrees with now):
+  `guarded_program_stopped_on_every_exception` is the full theorem for the code as it is
+  (`program_stopped_unless_body_exception_partial` = what held before; last section).
 -/
 namespace Infretis.C12
 open Infretis.Engine Infretis.EngineLoops
@@ -816,7 +817,9 @@ example : ((propagateGmx .repaired demoCfg (demoSched (fun t => t / 3) 30) 0 1 (
     no `try/finally`, so the exception leaves `_propagate_from` with the program still running (GROMACS stops mdrun
     in `__exit__`: `gromacs_program_stopped_on_return` covers every error).  The same holds for ANY exception raised
     inside the loop body (order function, reader).  `maxlen = 0` is not produced by the moves (`maxlen ≥ 2` there);
-    a witness the moves DO produce: `body_exception_leaves_program_running_counterexample` (audit pass, last section). -/
+    a witness the moves DO produce: `body_exception_leaves_program_running_counterexample` (audit pass, last section).
+    `extRun` is the loop WITHOUT the exception guard: since the repair in /repo this is a record; for the code as it is
+    the IndexError also stops the program (`guarded_program_stopped_on_every_exception`, example below it). -/
 theorem lammps_index_error_leaves_program_running_counterexample :
     let R := extRun (.lammps .repaired) { demoCfg with maxlen := 0 } (demoSched (fun _ => 2) 30) 0 demoFrames 50
     R.raised = some .index ∧ R.dead = false ∧ R.killed = false ∧ R.es = [] ∧
@@ -880,8 +883,11 @@ the `k`-th frame of the loop, `write_xyz_trajectory` failing with ENOSPC) and co
 
 open Infretis.EngineFault
 
-/-- **Nothing changes on runs without such an exception**: the faulty-loop model IS `extRun` (as found: always; with
-    the guard: whenever `extRun` does not end in IndexError, the only own exception raised inside the block). -/
+/-- **Nothing changes on runs without such an exception**: the faulty-loop model IS `extRun` — for the code as it is
+    (`guarded`) whenever `extRun` does not end in IndexError, the only own exception raised inside the block (then the
+    handler polls once more; the tie compares those cases with `extRunF .guarded`); for the record (`asIs`) always.
+    So every theorem about `extRun` above is a theorem about the current code on all runs without IndexError, and
+    `guarded_program_stopped_on_every_exception` covers the IndexError runs. -/
 theorem fault_free_loop_is_extRun (kind : Kind) (c : Cfg) (sched : Sched) (code : Int) (frames : List Frame) (fuel : Nat) :
     extRunF .asIs kind c sched code frames fuel none = { res := extRun kind c sched code frames fuel, body := false } ∧
     ((extRun kind c sched code frames fuel).raised ≠ some .index →
@@ -892,9 +898,9 @@ example : (extRun (.lammps .repaired) demoCfg (demoSched demoVis 8) 0 demoFrames
     (extRunF .guarded (.lammps .repaired) demoCfg (demoSched demoVis 8) 0 demoFrames 50 none).res.es.length = 6 := by
   decide +kernel
 
-/-- **"The external program is stopped when propagation ends" is FALSE for LAMMPS and CP2K as they are** — with a
-    realistic length limit (20): the program (alive until tick 30) has written six frames, two arrive per poll; the
-    order function (or `write_xyz_trajectory`, `msg_file.write`) raises on the frame with `step_nr = 2`.  The exception
+/-- **Record of the finding: "the external program is stopped when propagation ends" was FALSE for LAMMPS and CP2K as
+    found (`Guard.asIs`)** — with a realistic length limit (20): the program (alive until tick 30) has written six frames, two arrive per poll; the
+    order function (or `write_xyz_trajectory`) raises on the frame with `step_nr = 2`.  The exception
     leaves `_propagate_from` with two frames in the path, no signal sent, the program still running.  Supersedes the
     `maxlen = 0` witness of `lammps_index_error_leaves_program_running_counterexample` (which the moves never produce).
     Confirmed on the real `LAMMPSEngine` / `CP2KEngine` (tie class `body-fault`). -/
@@ -913,8 +919,8 @@ theorem body_exception_leaves_program_running_counterexample :
   revert this
   decide +kernel
 
-/-- **What holds for the code as it is**: the program is stopped on every way out of the loop EXCEPT an exception
-    raised by the loop body (guard `body = false`: it did not fire in this run) and the IndexError of
+/-- **What held for the code as found (`Guard.asIs`, record)**: the program is stopped on every way out of the loop
+    EXCEPT an exception raised by the loop body (guard `body = false`: it did not fire in this run) and the IndexError of
     `lammps_index_error_leaves_program_running_counterexample`. -/
 theorem program_stopped_unless_body_exception_partial (kind : Kind) (c : Cfg) (sched : Sched) (code : Int)
     (frames : List Frame) (fuel : Nat) (fault : Option Nat)
@@ -930,8 +936,9 @@ example : (extRunF .asIs (.lammps .repaired) demoCfg (demoSched (fun t => 2 * (t
     (extRunF .asIs (.lammps .repaired) demoCfg (demoSched (fun t => 2 * (t / 3 + 1)) 30) 0 demoFrames 50 (some 7)).res.killed = true := by
   decide +kernel
 
-/-- **Full statement for the proposed repair** (`except BaseException: if exe.poll() is None: killpg; wait; raise` around
-    the block): the program is stopped on EVERY way out — return, RuntimeError, IndexError (also `maxlen = 0`), the
+/-- **HEADLINE for the code as it is (`Guard.guarded`: `except BaseException: if exe.poll() is None: killpg; wait; raise`
+    around the block, /repo since the repair): the external program is stopped whenever propagation ends** — on EVERY
+    way out — return, RuntimeError, IndexError (also `maxlen = 0`), the
     body's exception at any frame — for every schedule, exit code, frames, limit (out of fuel = still looping). -/
 theorem guarded_program_stopped_on_every_exception (kind : Kind) (c : Cfg) (sched : Sched) (code : Int)
     (frames : List Frame) (fuel : Nat) (fault : Option Nat)
